@@ -13,6 +13,7 @@ from pyvc.engine import SUMMARIES, SStr, OStr, PStr, PyRaise, Undecided, mk_str
 
 _B58CHK = {}
 _B58 = {}
+_ROPE_OF = {}       # term id -> (term, the rope it was built from): decode returns the same segmentation
 
 
 def b58chk_fn(n):
@@ -28,7 +29,9 @@ def b58chk(rope):
         from spec import base58 as SB
         return SB.b58check_encode(rope.native())
     v = rope.be()
-    return SStr([OStr(b58chk_fn(len(rope))(v), f"b58chk{len(rope)}")])
+    t = b58chk_fn(len(rope))(v)
+    _ROPE_OF[t.get_id()] = (t, rope)
+    return SStr([OStr(t, f"b58chk{len(rope)}")])
 
 
 def s_encode_base58_checksum(ctx, args, kw):
@@ -44,6 +47,9 @@ def s_decode_base58_checksum(ctx, args, kw):
     if isinstance(s, SStr) and len(s.parts) == 1 and isinstance(s.parts[0], OStr):
         t = s.parts[0].t
         if z3.is_app(t):
+            hit = _ROPE_OF.get(t.get_id())
+            if hit is not None and hit[0].eq(t):
+                return hit[1]
             for n, f in _B58CHK.items():
                 if t.decl().eq(f):
                     return Rope([(t.arg(0), n, False)])
@@ -105,7 +111,99 @@ def s_bech32_encode(ctx, args, kw):
     return SStr([OStr(segwit_fn(len(prog))(L.toint(hrp_code(hrp)), L.toint(witver), L.toint(prog.be())), f"segwit{len(prog)}")])
 
 
+def _new_child(ctx, selfref, o, key, cc, index):
+    ch = ctx.new_list([])
+    child = ctx.new_obj(o.cls, parent=selfref, key=key, chain_code=cc, depth=o.fields["depth"] + 1, index=index,
+                        parsed_parent_fingerprint=None, parsed_version=None, testnet=o.fields["testnet"], children=ch)
+    lst = ctx.deref(o.fields["children"])
+    lst.items.append(child)
+    ctx.writes.append((o.fields["children"].oid, "append"))
+    return child
+
+
+def s_prv_ckd(ctx, args, kw):
+    """callers of PrvKeyNode.ckd see its contract (contracts/c_bip32.py PrvCkd), not its body"""
+    from .common import spec_prv_ckd_terms, N
+    import ecdsa
+    from btc_hd_wallet.bip32 import InvalidKeyError
+    selfref = args[0]
+    index = simplify_native(args[1] if len(args) > 1 else kw["index"])
+    o = ctx.deref(selfref)
+    key = as_rope(simplify_native(o.fields["key"]))
+    if len(key) == 33 and ctx.branch(L.eq(key[0], 0)):
+        key = key.slice(1, 33)
+    if len(key) != 32:
+        raise PyRaise(ecdsa.keys.MalformedPointError)
+    k = key.be()
+    if not ctx.branch(L.land(k >= 1, k < N)):
+        raise PyRaise(ecdsa.keys.MalformedPointError)
+    if not ctx.branch(L.land(index >= 0, index < 2 ** 32)):
+        raise PyRaise(OverflowError)
+    IL, IR, ki = spec_prv_ckd_terms(k, o.fields["chain_code"], index)
+    if ctx.branch(L.lor(IL >= N, ki == 0)):
+        raise PyRaise(InvalidKeyError)
+    return _new_child(ctx, selfref, o, L.seg(ki, 32), IR, index)
+
+
+def s_pub_ckd(ctx, args, kw):
+    """callers of PubKeyNode.ckd see its contract (contracts/c_bip32.py PubCkd)"""
+    from .common import spec_pub_ckd_terms, N, HARD
+    import ecdsa
+    from btc_hd_wallet.bip32 import InvalidKeyError
+    selfref = args[0]
+    index = simplify_native(args[1] if len(args) > 1 else kw["index"])
+    o = ctx.deref(selfref)
+    if ctx.branch(index >= HARD):
+        raise PyRaise(RuntimeError)
+    if ctx.branch(index < 0):
+        raise PyRaise(OverflowError)
+    key = as_rope(simplify_native(o.fields["key"]))
+    ok, pt = U.sec_parse(key)
+    if not ctx.branch(ok):
+        raise PyRaise(ecdsa.keys.MalformedPointError)
+    IL, IR, Ki = spec_pub_ckd_terms(key, pt, o.fields["chain_code"], index)
+    if ctx.branch(L.lor(IL >= N, IL == 0, Ki.sym_eq(U.inf()))):
+        raise PyRaise(InvalidKeyError)
+    return _new_child(ctx, selfref, o, U.sec(Ki, True), IR, index)
+
+
+_MNEMONIC = {}
+
+
+def mnemonic_term(rope):
+    rope = as_rope(rope)
+    n = len(rope)
+    if rope.is_concrete():
+        from spec import bip39 as SB
+        return SB.mnemonic_from_entropy(rope.native())
+    if n not in _MNEMONIC:
+        _MNEMONIC[n] = z3.Function(f"MNEMONIC_{n}", INT, PStr)
+    return SStr([OStr(_MNEMONIC[n](rope.be()), f"mnemonic{n}")])
+
+
+def s_mnemonic_from_entropy(ctx, args, kw):
+    """callers see: the BIP39 sentence of the decoded entropy for 16/20/24/28/32 bytes, ValueError otherwise
+    (contracts/c_bip39.py, C04)"""
+    from pyvc.engine import HexStr
+    h = args[0] if args else kw["entropy"]
+    if isinstance(h, HexStr) and type(h) is HexStr:
+        r = h.rope
+        if len(r) not in (16, 20, 24, 28, 32):
+            raise PyRaise(ValueError)
+        return mnemonic_term(r)
+    if isinstance(h, str):
+        from btc_hd_wallet import bip39
+        try:
+            return bip39.mnemonic_from_entropy(h)
+        except BaseException as e:
+            raise PyRaise(type(e))
+    raise Undecided("mnemonic_from_entropy summary: unsupported argument")
+
+
 def install():
+    SUMMARIES["btc_hd_wallet.bip32.PrvKeyNode.ckd"] = s_prv_ckd
+    SUMMARIES["btc_hd_wallet.bip32.PubKeyNode.ckd"] = s_pub_ckd
+    SUMMARIES["btc_hd_wallet.bip39.mnemonic_from_entropy"] = s_mnemonic_from_entropy
     SUMMARIES["btc_hd_wallet.bech32.encode"] = s_bech32_encode
     SUMMARIES["btc_hd_wallet.helper.encode_base58_checksum"] = s_encode_base58_checksum
     SUMMARIES["btc_hd_wallet.helper.decode_base58_checksum"] = s_decode_base58_checksum
